@@ -12,6 +12,7 @@ token case/space-insensitive, optional `media`/`bind` group token), and the dema
 * an (element, kind) that is not itext-bearing shows its unsuffixed cell to everybody.
 Itext-bearing (documented behaviour, part of the property's wording): any suffixed cell of that kind;
 a label next to any media cell; a hint next to any guidance cell; guidance hints and media always;
+a constraint/required message that contains a `${reference}`;
 a choice when any choice of its list has a suffixed label or media.
 Only string primitives (`splitDC`, `splitOnChar`, `strip`, `toSnakeCase`, `fixJr`) are shared with the model.
 -/
@@ -87,6 +88,13 @@ def langMap (dl : Str) (cells : List Cell) (k : Str) : List (Str × Str) :=
   | some u => if (lookup dl sfx).isSome then sfx else sfx ++ [(dl, u)]
   | none => sfx
 
+/-- does the text contain a `${…}` reference (closing brace on the same line)?  Such a message needs an
+`<output>` element and therefore lives in itext (documented behaviour). -/
+def hasRef : Str → Bool
+  | [] => false
+  | c :: cs =>
+    (startsWith (c :: cs) (s "${") && ((((c :: cs).drop 2).takeWhile (· ≠ '\n')).contains '}')) || hasRef cs
+
 inductive Plan where
   | inline (t : Str)
   | itext (m : List (Str × Str))
@@ -103,7 +111,8 @@ def planElem (dl : Str) (isGroup : Bool) (cells : List Cell) : List (Str × Plan
   let p := (kindsPresent cells).map fun k =>
     let bearing : Bool :=
       mediaKinds.contains k || k = s "guidance_hint" || !(suffixed cells k).isEmpty ||
-      (k = s "label" && hasMedia) || (k = s "hint" && hasGuid)
+      (k = s "label" && hasMedia) || (k = s "hint" && hasGuid) ||
+      ((k = s "constraint_message" || k = s "required_message") && hasRef ((unsuffixed cells k).getD []))
     if bearing then (k, Plan.itext (langMap dl cells k))
     else (k, Plan.inline ((unsuffixed cells k).getD []))
   if isGroup && !hasKind cells (s "label") then [] else p
